@@ -4,6 +4,6 @@ CONSTANTS
   MinNeg = 5
   MaxK = 64
   LegacyNumDays = FALSE
-INVARIANTS TypeOK Progress PartitionCorrect NumDaysCorrect RangeCorrect NoRunaway
+INVARIANTS TypeOK Progress PartitionCorrect PartitionIsFn NumDaysCorrect RangeCorrect NoRunaway
 PROPERTY Terminates
 CHECK_DEADLOCK FALSE
